@@ -2579,6 +2579,10 @@ task update from user %d for task from user %d failed: permission denied",
 		free(deconst(res->dflt_cred.wd));
 		free(deconst(res->dflt_cred.sh));
 		free_echs_task(res->t);
+		/* the new definition starts with a clean slate,
+		 * children of the old one are still accounted for though */
+		res->nrun = 0U;
+		res->cur = echs_nul_instant();
 	} else if (UNLIKELY((res = make_task(t->oid)) == NULL)) {
 		ECHS_ERR_LOG("cannot submit new task");
 		return -1;
